@@ -61,6 +61,12 @@ def gen_program(rng, counters):
             if rng.random() < 0.6:
                 items.append(["@dw ", N(scope, fa), " + 2 & $ffff"])
             continue
+        if 0.30 <= r < 0.36:
+            # a constant with a GLOBAL name defined in the middle of the scope: not a label, the scope stays
+            cn = f"KON{len(items)}"
+            items.append([f"@{rng.choice(['defl', 'defn', 'redefl', 'redefn'])} {cn}, {rng.randint(0, 99)}"])
+            counters["global_const_mid_scope"] = counters.get("global_const_mid_scope", 0) + 1
+            continue
         if r < 0.30:
             # a label defined by its QUALIFIED spelling in both renderings (`Main.helper:`): it is
             # not a global label, so the local names after it still belong to the same scope
@@ -147,6 +153,7 @@ def run(tier, seed):
     counters["macro"] = 0
     counters["direct_define"] = 0
     counters["struct_pad_expr"] = 0
+    counters["global_const_mid_scope"] = 0
     progs = []
     for _ in range(1500 if tier == "quick" else 20000):
         items = gen_program(rng, counters)
@@ -169,6 +176,8 @@ def run(tier, seed):
         ("@macro M, 0\n@db .q\n@endmacro\nM\n", None),
         ("Main:\n jmp .end\nMain.helper:\n nop\n.end:\n rts\n", "Main:\n jmp Main.end\nMain.helper:\n nop\nMain.end:\n rts\n"),
         ("Main:\n@defl Main.k, 3\n@db .k\n@defn K2, 4\n.q:\n@dw .q\n", "Main:\n@defl Main.k, 3\n@db Main.k\n@defn K2, 4\nMain.q:\n@dw Main.q\n"),
+        ("g:\n.x:\n@db 1\n@undef g\n@dw .x\n.y:\n@dw .y\n", "g:\ng.x:\n@db 1\n@undef g\n@dw g.x\ng.y:\n@dw g.y\n"),
+        ("g:\n.lp:\n dex\n@defl COUNT, 3\n bne .lp\n@defn K2, 4\n bne .lp\n@redefl COUNT, 5\n bne .lp\n", "g:\ng.lp:\n dex\n@defl COUNT, 3\n bne g.lp\n@defn K2, 4\n bne g.lp\n@redefl COUNT, 5\n bne g.lp\n"),
         ("@db @isdef .x\ng:\n", None),
         ("@if ! @isdef .cfg\n@db 1\n@endif\ng:\n", None),
         ("g:\n.x:\n@db 1\n.x:\n", "g:\ng.x:\n@db 1\ng.x:\n"),
